@@ -247,7 +247,7 @@ def main(argv):
             binp = build_engine(step["engine"], step["cfg"])
             rpt = os.path.join(OUT, "reports", "%s-%s-%s-%s.json" % (prop, step["engine"], step["cfg"], step.get("tag", "0")))
             os.makedirs(os.path.dirname(rpt), exist_ok=True)
-            r = run_engine(binp, step.get("prop", prop), tier, seed, rpt, step.get("extra", []),
+            r = run_engine(binp, step.get("prop", prop), step.get("tier", tier), seed, rpt, step.get("extra", []),
                            step.get("timeout", 3600 if tier == "quick" else 6 * 3600), step_env(step))
             for v in r.get("violations", []):
                 v["_step"] = step
@@ -310,7 +310,17 @@ def decide(prop, plan, tier, seed, merged, wall):
                 rc, out = run_cmd(cmd, cwd=VERIF, env=env, timeout=1800)
                 outcomes.append(rc)
             if outcomes != [1, 1]:
-                raise Machinery("violation %s did not replay deterministically (exit codes %s); see %s" % (v["key"], outcomes, rpath))
+                # The single-history replay did not reproduce it (some oracles only exist inside the
+                # explorer). Re-run the whole exploration once: if the same key comes back the violation
+                # is deterministic and is reported; if not, that is a machinery problem.
+                rpt2 = os.path.join(OUT, "reports", "%s-recheck.json" % prop)
+                r2 = run_engine(binp, step.get("prop", prop), step.get("tier", tier), seed, rpt2, step.get("extra", []),
+                                step.get("timeout", 3600 if tier == "quick" else 6 * 3600), step_env(step))
+                if not any(x.get("key") == v["key"] for x in r2.get("violations", [])):
+                    raise Machinery("violation %s neither replays (exit codes %s) nor recurs when the exploration is re-run; see %s" % (v["key"], outcomes, rpath))
+                rj["replay_note"] = "single-history replay exit codes %s; confirmed by re-running the exploration" % outcomes
+                with open(rpath, "w") as f:
+                    json.dump(rj, f, indent=1)
         confirmed += 1
         lines.append("VIOLATION property=%s replay=%s  # %s: %s" % (prop, rpath, v["key"], v["summary"]))
     kf = []
